@@ -29,6 +29,17 @@ CONFIG = dict(
              '= arena length, distance 1 in memory and threshold = arena length + 1, compared with the run without hibernation.  The trace records the parameters of a scale history, not its lines.  '
              'The harness runs as supervisor + child: when the child dies during a run with hibernation (a panic in a goroutine of Allocator.Hibernate / Boot cannot be recovered) the trace holds that input '
              'with outcome (panic crash), a property failure.  '
+             'Streams added after the round-3 seeded changes C09-s5 / C09-s6 were missed (harness/cmd/c09/wipe.go).  View histories: conflict-free line histories in which a path without an alive line is ABSENT from the tree '
+             '(files are deleted), a line may carry a NUL byte (the file is binary while it is alive: text <-> binary flips) and a line may have several killers; concurrent commits never touch the same file, so the result '
+             'does not depend on the planner (checked: four runs without hibernation agree).  wipe / wipevictim: a fork point removes EVERY tracked file of the branch (all files deleted; all text files deleted, only binary '
+             'files left; every text file flipped to binary; a mixture) or an arm removes its own file again, while the arena is not empty; fans of 2..4 arms of 1..4 commits on own text / binary files, sub-forks inside an arm, '
+             'merge, tail, 1-2 such sections; the branch that tracks nothing idles, is hibernated and is used again by an insertion, a binary-only commit followed by a fork / another hibernation, or a merge; x distance 1..4 x '
+             'threshold {0, 1, an arena size met, 2^30} x memory/disk (+ 2 one-victim tamper runs).  truncall: for 3 (thorough 40) small histories (view and GenHist) the temp file of ONE hibernated branch - identified by '
+             'the digest of its bytes, chosen among the files that all of four probing runs write, those with free nodes in the arena first - is truncated to EVERY length 0 .. size-1, one complete run each (files of 75..260 '
+             'bytes, thorough up to 2500).  rerun: the SAME BurndownAnalysis instance (every third case the same Pipeline object too) goes through Initialize + Run twice: a prior run with hibernation that succeeds or FAILS '
+             '(temp file removed / truncated, missing directory; its temp files left in place or tidied away), on the same history, a parent-closed prefix of it or another history, then the run of the case under other '
+             'hibernation settings in a fresh directory, judged like every other run (twin: a fresh instance without hibernation; for a re-used Pipeline the same two runs without hibernation).  When two successful runs '
+             'differ and followed different base plans the harness looks for a run without hibernation on the SAME base plan (obs baseretry).  '
              'Non-trivial = the executed plan contains a Hibernate action; distinct = distinct (history, granularity, sampling, distance, threshold, disk, '
              'wrapper, fault, options).',
         exhaustive_note='',
@@ -57,7 +68,8 @@ CONFIG = dict(
             'leaves/verif_c09.go (arena size, temp-file name), internal/core/verif_c09.go + verifapi/c09 (plan printer sink), the delegating wrapper item '
             'and the tamper item of harness/cmd/c09 (incl. the tampering from the public OnProgress callback right before a multi-branch boot action), '
             'the supervisor / child split of the harness (a crash of the child during a run with hibernation becomes the outcome (panic crash)) and the parametric '
-            'generator of the large histories (harness/cmd/c09/scale.go)',
+            'generator of the large histories (harness/cmd/c09/scale.go) and of the view histories with deleted / binary files (harness/cmd/c09/wipe.go; the every-length '
+            'truncation picks its victim by the digest of the file bytes from the public OnProgress callback)',
         ],
         level_text='Coq theorems over every plan that satisfies the lifecycle predicate, every abstract analysis item, every threshold and disk setting, every '
                    'I/O oracle and every remove/truncate adversary: C09_erasure (all I/O succeeds, nobody tampers: the run equals the run of the plan without '
